@@ -5,13 +5,64 @@ import (
 	"go/token"
 )
 
-// locals returns extra Lean definitions for constants that live inside function bodies of
-// the given package (filled in per package as the models need them).
+// Per-property extractor extensions register themselves from their own file
+// (extract/x_<prop>.go) so that several people can add to the extractor without editing
+// shared code.
+
+// localsFn returns extra Lean definitions (complete lines such as
+// "def interleaveWindowNs : Int := 3000000000") for constants that live inside function
+// bodies of the package in dir. Report a shape that can no longer be found with broken().
+type localsFn func(files []*ast.File, fset *token.FileSet) []string
+
+var localsReg = map[string][]localsFn{}
+
+func registerLocals(dir string, f localsFn) { localsReg[dir] = append(localsReg[dir], f) }
+
+// factFn checks structural facts about the sources against written expectations;
+// a fact that no longer holds is reported with broken().
+type factFn func(repo string, parsed map[string][]*ast.File, fset *token.FileSet)
+
+var factReg []factFn
+
+func registerFact(f factFn) { factReg = append(factReg, f) }
+
 func locals(dir string, files []*ast.File, fset *token.FileSet) []string {
-	return nil
+	var out []string
+	for _, f := range localsReg[dir] {
+		out = append(out, f(files, fset)...)
+	}
+	return out
 }
 
-// checkFacts compares structural facts about the sources with written expectations;
-// a fact that no longer holds is a broken tie.
 func checkFacts(repo string, parsed map[string][]*ast.File, fset *token.FileSet) {
+	for _, f := range factReg {
+		f(repo, parsed, fset)
+	}
+}
+
+// findFunc returns the declaration of function or method name ("Recv.Name" for methods,
+// receiver type without the star) in files, or nil.
+func findFunc(files []*ast.File, name string) *ast.FuncDecl {
+	for _, f := range files {
+		for _, d := range f.Decls {
+			fd, ok := d.(*ast.FuncDecl)
+			if !ok {
+				continue
+			}
+			n := fd.Name.Name
+			if fd.Recv != nil && len(fd.Recv.List) == 1 {
+				t := fd.Recv.List[0].Type
+				if s, ok := t.(*ast.StarExpr); ok {
+					t = s.X
+				}
+				if id, ok := t.(*ast.Ident); ok {
+					n = id.Name + "." + n
+				}
+			}
+			if n == name {
+				return fd
+			}
+		}
+	}
+	return nil
 }
